@@ -44,6 +44,11 @@ CLAIMED = {
    note="Trusted: link-time allocation counters + ASan, drv_dec.c.",
    technique="(no proof) allocation accounting over generated life cycles",
    ref="3/C08", cat="exploration"),
+ "C09": dict(
+   text="Machine-checked proof (Coq, ZifyBool/lia) that the decision functions mirroring the three set_fec_parameters implementations accept exactly the advertised limits, for ALL 32-bit k, r (incl. the UINT32 wrap of k+r), L, N1, seed: LDPC-Staircase and RS GF(2^8) fully; RS GF(2^m) is refuted by a witness (n above the field size is accepted: known finding, the repository's own test relies on it) and proved outside that class. Limits are re-read from /repo's headers on every run. The decision functions are compared with the compiled C (encoder and decoder sessions) on an exhaustive boundary grid (~18,000 points); accepted points are followed by a full encode/lose/decode cycle and by 13 corrupted calls (NULL session, ESI out of range, wrong role, NULL symbol) that must return an error status and leave both sessions usable.",
+   note="Trusted: Coq kernel; Params.v hand-written mirror of the parameter checks (tied by the exhaustive grid); gen_consts translator; drivers. No axioms. Known finding rs2m-n-above-field listed in known_findings.json.",
+   technique="Coq proof over decision functions with translator-regenerated limits + exhaustive grid correspondence + follow-up life cycles",
+   ref="3/C09"),
  "C10": dict(
    text="Machine-checked proofs (Coq): RS API model: finish returns OK iff complete afterwards / FAILURE iff not, complete iff k distinct symbols; LDPC streaming model: the completion query is true exactly when all k sources are available and availability never reverts along any history. The LDPC finish status and pointer identity are decided by the C-side oracle (every session) and, for RS, by the API-model correspondence.",
    note="Trusted: Coq kernel; RSApi.v/ITModel.v mirrors; hypothesis core_ok in the RS theorems; drivers and oracle. No ML model: LDPC finish status is not a theorem.",
